@@ -10,7 +10,7 @@ import z3
 from .. import poly, quat, stubs, sym
 from ..sarr import NpProxy, SArr, patched, sarr
 from ..sym import R, real
-from .common import all_eq, eq, np_installed, pydrex_modules, sample
+from .common import all_eq, eq, np_installed, pydrex_modules, sample, only_path
 
 TIMEOUT_MS = {"quick": 90000, "thorough": 300000}
 AXES = {"a": 0, "b": 1, "c": 2}
@@ -83,7 +83,7 @@ def t_scatter(sess, n_grains, axis):
 
     with np_installed(stats):
         paths, _ = sym.explore(fn)
-    p = paths[0]
+    p = only_path(sess, paths)
     qs, r, Q, A, S, Sperm, flips, Srot = p.value
     rules = poly.Rules().unit_quat(r)
     for q in qs:
@@ -125,7 +125,7 @@ def t_invariants_conjugation(sess):
         return r, S, Q @ S @ Q.transpose()
 
     paths, _ = sym.explore(fn)
-    p = paths[0]
+    p = only_path(sess, paths)
     r, S, S2 = p.value
     rules = poly.Rules().unit_quat(r)
 
@@ -163,7 +163,7 @@ def t_pgr(sess, axis):
 
     with np_installed(diag, stats), patched(*_diag_env(eig)):
         paths, _ = sym.explore(fn)
-    p = paths[0]
+    p = only_path(sess, paths)
     (P, G, Rr), rec = p.value
     tag = f"pgr[{axis}]"
     for ob in p.obligations:
@@ -194,7 +194,7 @@ def t_bingham(sess, axis):
 
     with np_installed(diag, stats), patched(*_diag_env(eig)):
         paths, _ = sym.explore(fn)
-    p = paths[0]
+    p = only_path(sess, paths)
     qs, m, rec, S = p.value
     tag = f"bingham[{axis}]"
     rules = poly.Rules().unit_quat(rec["q"]).sign(rec["sg"])
@@ -240,7 +240,7 @@ def t_coaxial(sess):
 
     with np_installed(diag, stats), patched(*_diag_env(eig)):
         paths, _ = sym.explore(fn)
-    p = paths[0]
+    p = only_path(sess, paths)
     ba, calls = p.value
     reach_shaped(sess, "coaxial: reach", p.pc)
     # P + G > 0 for both axes <=> the scatter matrices are not exactly isotropic (l_max > l_min)
@@ -272,7 +272,7 @@ def t_finite_strain(sess):
 
     with np_installed(diag), patched(*_diag_env(eig)):
         paths, _ = sym.explore(fn)
-    p = paths[0]
+    p = only_path(sess, paths)
     Fm, r, Q, (stretch, axis), calls = p.value
     rules = poly.Rules().unit_quat(r)
     B = Fm @ Fm.transpose()
@@ -308,7 +308,7 @@ def t_simple_shear_angle(sess):
     proxy.arctan = arctan
     with np_installed(utils, proxy=proxy):
         paths, _ = sym.explore(fn)
-    p = paths[0]
+    p = only_path(sess, paths)
     eps, ang, t = p.value
     gam = 2 * eps
     B = [[R(1), gam, R(0)], [gam, 1 + gam * gam, R(0)], [R(0), R(0), R(1)]]  # (I + g e_y e_x^T)(I + g e_y e_x^T)^T
